@@ -103,7 +103,7 @@
  "tier": "wip",
  "harness": "h_write_cached",
  "enforce": ["unix_write_blk64"],
- "replace": ["flush_cached_blocks", "raw_write_blk"],
+ "replace": ["reuse_cache", "flush_cached_blocks", "raw_write_blk"],
  "unwind": 64,
  "unwindset": {"build_channel.0": 9, "find_cached_block.0": 9, "unix_write_blk64.0": 5},
  "unwind_reason": "cached path only for 1..WRITE_DIRECT_SIZE(4) blocks",
@@ -166,6 +166,7 @@ static errcode_t unix_write_blk64(io_channel channel, unsigned long long block, 
 	ENSURES(!g_wfail || RET != 0)
 	ENSURES(RET == 0 || g_covered || coherent(PD(channel)))
 	ENSURES(!WT(channel) || !any_dirty(PD(channel)))
+	ENSURES(bufs_tied(PD(channel)))
 	#ifdef CFG_COARSE_FRAME
 	ASSIGNS(CACHE_FRAME, g_disk, g_nwrites, g_wfail);
 #else
